@@ -126,8 +126,14 @@ func c10Check(res *core.Result, raw []byte, ledger []*picEntry, foreignMedia map
 		if len(blips) == 0 {
 			continue
 		}
+		id, embedded := blips[0].Attr(opc.NsR, "embed")
+		if _, linked := blips[0].Attr(opc.NsR, "link"); linked && !embedded {
+			// a picture of the opened package that is linked, not embedded: it has no media part (its relationship is the
+			// relationship monitor's business)
+			res.Count("linked_pictures_seen", 1)
+			continue
+		}
 		res.Count("pictures_resolved", 1)
-		id, _ := blips[0].Attr(opc.NsR, "embed")
 		rel, ok := relByID[id]
 		if !ok || rel.ShortType() != "image" {
 			fail("picture-unresolved", "a:blip r:embed=%q does not resolve to an image relationship", id)
